@@ -1406,10 +1406,30 @@ class Signature:
 _ref_cache: dict[str, Signature] = {}
 
 
+# equivalent ways of writing a definition (same function, element-wise instead of slice-wise, ...): a kernel may equal any
+ALTERNATIVES: dict[str, list[str]] = {
+    "invert_freq": ['''
+def invert_freq(array, nchans, nsamps):
+    out = np.empty_like(array)
+    for t in range(nsamps):
+        for c in range(nchans):
+            out[nchans * t + c] = array[nchans * t + nchans - 1 - c]
+    return out
+'''],
+}
+
+
 def reference(name: str) -> Signature:
     if name not in _ref_cache:
         _ref_cache[name] = Signature(_func_from_source(REFERENCE[name], name), None)
     return _ref_cache[name]
+
+
+def alternatives(name: str) -> list[Signature]:
+    key = name + "#alt"
+    if key not in _ref_cache:
+        _ref_cache[key] = [Signature(_func_from_source(src, name), None) for src in ALTERNATIVES.get(name, [])]
+    return _ref_cache[key]
 
 
 _DOMAIN_GUARD = __import__("re").compile(
@@ -1477,9 +1497,22 @@ def _copy_sig(sig: "Signature") -> "Signature":
 
 
 def compare(fn: FuncInfo, name: str | None = None) -> tuple[str, list[str]]:
-    """-> ('same' | 'different' | 'incomparable', explanation lines)."""
+    """-> ('same' | 'different' | 'incomparable', explanation lines); against the definition, then against its alternatives."""
     name = name or fn.name
-    ref = reference(name)
+    first = _compare_with(fn, name, reference(name))
+    if first[0] == "same":
+        return first
+    best = first
+    for alt in alternatives(name):
+        other = _compare_with(fn, name, alt)
+        if other[0] == "same":
+            return "same", other[1] + ["(equals an alternative form of the definition)"]
+        if best[0] == "incomparable" and other[0] == "different":
+            best = other   # comparable with this form: report the difference rather than "not comparable"
+    return best
+
+
+def _compare_with(fn: FuncInfo, name: str, ref: "Signature") -> tuple[str, list[str]]:
     try:
         act = Signature(fn.node, ref.params)
     except AnalysisError as exc:
